@@ -102,6 +102,52 @@ func r121(c *Ctx, rule string) {
 		}
 	}
 	c.ob(rule, "no-in-place-writer-on-live-path", statePath.Pos(), true, true, fmt.Sprintf("module scanned: %d path-taking write/remove calls, none on the live path (violations listed separately)", nScanned))
+	// ... and every path that IS removed / overwritten is known to be something else: the name of a file this code
+	// created with os.CreateTemp, or the control socket. A path computed any other way (joined from a directory listing,
+	// say) might be the state file itself.
+	for _, fn := range c.proxyFuncs() {
+		for _, cs := range callsIn(fn) {
+			name := calleeName(cs.common())
+			idx, isWriter := writers[name]
+			if !isWriter || name == "os.Symlink" || name == "os.Link" {
+				continue
+			}
+			arg := resolve(cs.common().Args[idx])
+			known := ""
+			for _, src := range phiSources(arg) {
+				src = resolve(src)
+				k := ""
+				if call, ok := src.(*ssa.Call); ok {
+					switch calleeName(call.Common()) {
+					case "(*os.File).Name":
+						// of a file from os.CreateTemp (directly, or kept in Buffer.diskBuffer which only createSpill sets: R14.1)
+						recv := resolve(call.Call.Args[0])
+						if e, ok := recv.(*ssa.Extract); ok {
+							if ct, ok := e.Tuple.(*ssa.Call); ok && calleeName(ct.Common()) == "os.CreateTemp" {
+								k = "name of a temporary file created here"
+							}
+						}
+						if f, _, ok := fieldLoad(recv); ok && f.Name() == "diskBuffer" {
+							k = "name of the buffer's spill file"
+						}
+					default:
+						if sc := call.Call.StaticCallee(); sc != nil && sc.Name() == "SocketPath" {
+							k = "the control socket"
+						}
+					}
+				}
+				if s, isK := constString(src); isK && s == "" {
+					k = "empty"
+				}
+				if k == "" {
+					known = ""
+					break
+				}
+				known = k
+			}
+			c.ob(rule, fmt.Sprintf("%s in %s/path-is-not-the-state-file", name, fname(outer(fn))), cs.pos(), known != "", true, "a file may be removed / created in place only under a path known to be something other than the state file ("+known+"); a path of unknown origin may be the live state file, and removing it leaves the next start with nothing to restore")
+		}
+	}
 	// the one place that replaces the file
 	var renames []callSite
 	for _, fn := range c.proxyFuncs() {
